@@ -56,6 +56,9 @@ def tnum(x):
     return ["n", P.numkey(float(x))]
 
 
+THROW = object()  # a function replacer that throws a TypeError instead of returning
+
+
 def dec(t):
     """tagged value (reapi.enc shape) -> model value"""
     k = t[0]
@@ -71,12 +74,16 @@ def dec(t):
         return t[1]
     if k == "raw":
         return reapi.RawValue(t[1], t[2])
+    if k == "throw":
+        return THROW
     raise ValueError(t)
 
 
 def js_val(t):
     if t[0] == "raw":
         return t[1]
+    if t[0] == "throw":
+        return "TH"
     return P.js_literal(dec(t))
 
 
@@ -115,6 +122,8 @@ def norm_pairs(flat):
 def op_expr(op):
     k = op[0]
     if k in ("exec", "test"):
+        if op[1] is None:
+            return "r.%s()" % k  # no argument: the string "undefined"
         return "r.%s(s%d)" % (k, op[1])
     if k == "set":
         return "(r.lastIndex = %s)" % js_val(op[1])
@@ -154,10 +163,12 @@ def method_script(case, prelude=True):
     elif arg["t"] == "val":
         call = "s.%s(r, %s)" % (m, js_val(arg["v"]))
     elif arg["t"] == "fn":
-        lines.append("var RET = [%s];" % ", ".join(js_val(t) for t in arg["rets"]))
+        lines.append("var TH = {}; var RET = [%s];" % ", ".join(js_val(t) for t in arg["rets"]))
+        # the replacer logs its arguments and what r.lastIndex is while it runs, then returns (or throws)
         lines.append(
             "function F(){var a=[];for(var i=0;i<arguments.length;i++){a.push(typeof arguments[i]);a.push(arguments[i]);}"
-            "LOG.push(a);var x=RET[K%RET.length];K++;return x;}"
+            "a.push(typeof r.lastIndex);a.push(r.lastIndex);"
+            "LOG.push(a);var x=RET[K%RET.length];K++;if(x===TH)throw new TypeError('replacer');return x;}"
         )
         call = "s.%s(r, F)" % m
     else:
@@ -222,10 +233,10 @@ def model_history(case):
         try:
             if k == "exec":
                 nontrivial = nontrivial or nonzero
-                v = rx.exec(subs[op[1]])
+                v = rx.exec("undefined" if op[1] is None else subs[op[1]])
             elif k == "test":
                 nontrivial = nontrivial or nonzero
-                v = rx.test(subs[op[1]])
+                v = rx.test("undefined" if op[1] is None else subs[op[1]])
             elif k == "set":
                 v = dec(op[1])
                 rx.last_index = v
@@ -267,8 +278,11 @@ def model_method(case):
             rets = [dec(t) for t in arg["rets"]]
 
             def fn(a):
-                log.append([reapi.enc(x) for x in a])
-                return rets[(len(log) - 1) % len(rets)]
+                log.append([reapi.enc(x) for x in a] + [reapi.enc(rx.last_index)])
+                ret = rets[(len(log) - 1) % len(rets)]
+                if ret is THROW:
+                    raise reapi.JSThrow("TypeError", "replacer")
+                return ret
 
             args = [fn]
     try:
@@ -380,7 +394,7 @@ def judge_history(case, fast=False):
         part = "exception:%s" % val.get("cls")
     step = min(step, len(case["ops"]) - 1)
     op = case["ops"][step]
-    opname = op[0] + (":" + _ktype(op[1]) if op[0] == "set" else "")
+    opname = op[0] + (":" + _ktype(op[1]) if op[0] == "set" else "()" if op[0] in ("exec", "test") and op[1] is None else "")
     prev_set = ""
     if part.startswith("exception") or op[0] in ("exec", "test"):
         # the kind of value lastIndex held when the step ran
@@ -598,7 +612,7 @@ TMPL_PIECES = (
 )
 FN_RETS = [
     ["s", "x"], ["s", ""], ["s", "$&"], ["s", "$1"], ["s", "[r]"], tnum(1), tnum(1.5), tnum(-0.0), NAN, U, ["N"], ["b", 1], ["b", 0],
-    tnum(1e21), ["raw", "[1,2]", "1,2"], ["raw", "({})", "[object Object]"], ["raw", "[]", ""], ["s", "$$"], tnum(-7),
+    tnum(1e21), ["raw", "[1,2]", "1,2"], ["raw", "({})", "[object Object]"], ["raw", "[]", ""], ["s", "$$"], tnum(-7), ["throw"],
 ]
 METHODS_B = ["replace"] * 7 + ["split"] * 4 + ["match"] * 4 + ["replaceAll"] * 2 + ["search"] * 3
 
@@ -699,9 +713,9 @@ def gen_history_case(rnd):
         si = rnd.randint(0, 1)
         r = rnd.random()
         if r < 0.28:
-            ops.append(["exec", si])
+            ops.append(["exec", si if rnd.random() < 0.97 else None])
         elif r < 0.45:
-            ops.append(["test", si])
+            ops.append(["test", si if rnd.random() < 0.97 else None])
         elif r < 0.70:
             ks = k_values(len(subs[si])) + (K_EXTRA if rnd.random() < 0.3 else [])
             ops.append(["set", rnd.choice(ks)])
@@ -907,6 +921,8 @@ def _hypothesis_cases(chk, part, gen, n):
     from hypothesis import strategies as st
 
     cases = []
+    if n <= 0:
+        return cases
 
     @hypothesis.seed(core.shard_seed(chk.seed, ID, part))
     @settings(max_examples=n, database=None, deadline=None, derandomize=False,
